@@ -270,6 +270,7 @@ Definition builtin (f : string) (args : list value) : option ctl :=
     | [v] => Some (CVal (VCon "Some" [v]))
     | _ => None
     end
+  else if f =? "min" then match args with [VNat a; VNat b] => Some (CVal (VNat (Nat.min a b))) | _ => None end
   else if f =? "is_some" then
     match args with [VCon "Some" [_]] => Some (CVal (VBool true)) | [VCon "None" []] => Some (CVal (VBool false)) | _ => None end
   else if f =? "is_none" then
@@ -306,7 +307,7 @@ Definition builtin (f : string) (args : list value) : option ctl :=
 
 Definition is_builtin (f : string) : bool :=
   existsb (String.eqb f) ["len"; "is_empty"; "konst::cmp_str"; "konst::eq_str"; "into"; "to_string"; "Binary::default";
-                          "unwrap_or_default_string"; "anyhow::is"; "anyhow::downcast"; "unwrap"; "into_option"; "is_some"; "is_none"; "push"; "Response::new";
+                          "unwrap_or_default_string"; "anyhow::is"; "anyhow::downcast"; "unwrap"; "into_option"; "is_some"; "is_none"; "min"; "push"; "Response::new";
                           "add_submessages"; "add_attributes"; "add_events"].
 
 Definition binop (op : string) (a b : value) : option ctl :=
